@@ -257,6 +257,8 @@ def gen(i, R, tier):
     P = _PLAN[tier]
     swarm = {"set_policy": sw.choice(("mixed", "shuffled", "insertion")),
              "walk_policy": sw.choice(("shuffled", "reversed", "sorted"))}
+    verbose_world = sw.random() < 0.25
+    swarm["verbose_world"] = verbose_world
     if i < len(P):
         kind, a = P[i]
         swarm["mode"] = kind
@@ -278,6 +280,9 @@ def gen(i, R, tier):
             ops.append(dict(SIMPLE_FAULTS[a["j"]]))
             ops.append({"op": "scan", "nonce": G.nonce(rng)})
             ops.append({"op": "scan", "nonce": G.nonce(rng)})
+        if verbose_world:
+            # .codelimit.yml with verbose: true - every scan of this case logs instead of using the live table
+            ops.insert(0, {"op": "set_yml", "patterns": [], "verbose": True})
         return {"property": "C10", "workload": "C10", "seed": R, "swarm": swarm, "ops": ops}
     # ---- random fault sequences interleaved with edits and scans ----------------
     swarm["mode"] = "sequence"
@@ -288,6 +293,8 @@ def gen(i, R, tier):
     ops = []
     for p in rng.sample(files, rng.randint(2, 5)):
         ops.append({"op": "write", "path": p, "content": c09._content(rng, p)})
+    if verbose_world:
+        ops.append({"op": "set_yml", "patterns": [], "verbose": True})
     ops.append({"op": "scan", "nonce": G.nonce(rng)})
     n_faults = 0
     for _ in range(rng.randint(4, 18)):
